@@ -251,10 +251,12 @@ def genstats(ctx, err_text):
                     ctx.histogram["gen:" + k] += int(v)
 
 
-def run_family(ctx, prop, family, n_quick, n_thorough, corpus_props, steered=None):
+def run_family(ctx, prop, family, n_quick, n_thorough, corpus_props, steered=None, obligations=None, tie_modules=()):
     """steered = (n_quick, n_thorough) cases of the steered family c16s (deterministic enumeration of 288 combinations
-    per round) or None"""
-    failed = ctx.lean_obligations(props_module="Goat.Props." + prop)
+    per round) or None; obligations = stage 1 of the check (default: the theorems of Props/<prop>.lean; the checks pass
+    pipe_tie.obligations, which adds the structural tie Goat.Tie.Pipe<prop>); tie_modules = further modules for the
+    thorough tier's leanchecker"""
+    failed = obligations(ctx) if obligations else ctx.lean_obligations(props_module="Goat.Props." + prop)
     go = ctx.build_go("pipeline")
     model = ctx.build_model("m_pipeline")
     n = ctx.pick(n_quick, n_thorough)
@@ -334,7 +336,7 @@ def run_family(ctx, prop, family, n_quick, n_thorough, corpus_props, steered=Non
             return False
         ctx.obligation_violations(failed, searcher=searcher)
     if not ctx.quick():
-        ctx.leanchecker(["Goat.Props." + prop])
+        ctx.leanchecker(["Goat.Props." + prop] + list(tie_modules))
         bad_ob = [o for o in ctx.obligations if not o["ok"]]
         if bad_ob and not failed:
             ctx.obligation_violations(bad_ob)
